@@ -39,7 +39,21 @@ ASSUMPTIONS = [
     "testnet and regtest are one observation class for wif and mnemonic --to-master-key (same version bytes)",
     "network/external effects are replaced by recording stubs (rpc_method, send_tx, mine_block, p2p.Node, getpass, keys.key, sig)",
 ]
-SELFCHECKS = [conv.selfcheck, b58ref.selfcheck]
+
+
+def _fixtures_selfcheck():
+    """the public constants the observers rely on are what they claim to be"""
+    h = hashlib.sha256(hashlib.sha256(GENESIS_BLOCK[:80]).digest()).digest()[::-1].hex()
+    assert h == "000000000019d6689c085ae165831e934ff763ae46a2a6c172b3f1b60a8ce26f", h
+    t = hashlib.sha256(hashlib.sha256(GENESIS_TX).digest()).digest()
+    assert t == GENESIS_BLOCK[36:68] and len(GENESIS_BLOCK) == 285
+    # BIP173 example: witness program 751e76e8199196d454941c45d1b3a323f1433bd6 behind the version character
+    assert _bech32_data(b"bc1" + b"w508d6qejxtdg4y5r3zarvary0c5xw7k" + b"v8f3t4") == bytes.fromhex("751e76e8199196d454941c45d1b3a323f1433bd6")
+    assert classify_shape(b"\x01\x10\xab", 3, 3) == "raw" and classify_shape(b"0110ab\n", 3, 3) == "hex"
+    assert classify_shape(b"000000010001000010101011\n", 3, 3) == "bin" and classify_shape(b"0110ab", 4, 4) == "unrecognised"
+
+
+SELFCHECKS = [conv.selfcheck, b58ref.selfcheck, _fixtures_selfcheck]
 
 TOML_OK = importlib.util.find_spec("tomllib") is not None
 
@@ -143,6 +157,13 @@ GENESIS_TX = bytes.fromhex(
     "696d65732030332f4a616e2f32303039204368616e63656c6c6f72206f6e206272696e6b206f66207365636f6e64206261696c6f757420"
     "666f722062616e6b73ffffffff0100f2052a01000000434104678afdb0fe5548271967f1a67130b7105cd6a828e03909a67962e0ea1f61"
     "deb649f6bc3f4cef38c4f35504e51ec112de5c384df7ba0b8d578a4c702b6bf11d5fac00000000"
+)
+GENESIS_BLOCK = (
+    bytes.fromhex(
+        "0100000000000000000000000000000000000000000000000000000000000000000000003ba3edfd7a7b12b27ac72c3e67768f617fc81bc3"
+        "888a51323a9fb8aa4b1e5e4a29ab5f49ffff001d1dac2b7c01"
+    )
+    + GENESIS_TX
 )
 MAGIC = {bytes.fromhex("f9beb4d9"): "mainnet", bytes.fromhex("0b110907"): "testnet", bytes.fromhex("fabfb5da"): "regtest"}
 HRP = {b"bc": "mainnet", b"tb": "testnet", b"bcrt": "regtest"}
@@ -285,7 +306,7 @@ def _m_tx(res, data):
 # input_format: (fixed argv, payload, matcher "does the output show that `data` was read?")
 IN_SCEN = {
     "": (["-0x"], B3, _m_hexout),
-    "blockchain": (["blockchain", "-0x"], B3 + H20, _m_hexout),
+    "blockchain": (["blockchain", "-0x"], GENESIS_BLOCK, _m_hexout),
     "pubkey": (["pubkey", "-X", "-0x"], G33, _m_hexout),
     "wif": (["wif"], KEY32, _m_wif),
     "addr": (["addr"], H20, _m_addr),
@@ -529,16 +550,26 @@ def check_precedence(case):
     has_file = case["json"] is not None or case["toml"] is not None
 
     def which_layer(obs):
+        """which layer's value is the observed one (the built-in default wins ties: it needs no explanation)"""
+        if scen.cls(DEFAULT[opt]) == obs:
+            return "default"
         present = [("cli", case["cli"])]
         for nm in ("toml", "json"):
             spec = case[nm]
             present.append((nm, spec[1] if spec and spec[0] == "v" else None))
         for nm, v in present:
             if v is not None and scen.cls(v) == obs:
-                return "file" if (layer == "cli" and nm != "cli") else nm
-        if scen.cls(DEFAULT[opt]) == obs:
-            return "default"
+                return nm
         return "other"  # a value of no layer, or no readable output at all (the detail says which)
+
+    def clause(got):
+        if layer == "cli":
+            return "explicit-flag-not-in-effect"
+        if got == "json" and layer in ("toml", "default"):
+            return "json-used-despite-toml"
+        if layer in ("toml", "json"):
+            return "config-file-not-in-effect"
+        return "default-not-in-effect"
 
     clean_ok = None
     for unknown in (False, True) if has_file else (False,):
@@ -555,12 +586,12 @@ def check_precedence(case):
             clean_ok = good
             if not good:
                 if case["cli"] is not None and res.exit not in (None, 0):
-                    f.add(f"accept/{name}/{opt}/rejected-on-command-line", f"argv={argv} {res.brief()}")
+                    f.add(f"accept/{name}/{opt}/not-accepted-on-command-line", f"argv={argv} {res.brief()}")
                 else:
                     f.add(
-                        f"precedence/{name}/{opt}/want-{layer}-got-{which_layer(obs)}",
+                        f"precedence/{name}/{opt}/{clause(which_layer(obs))}",
                         f"argv={argv} files={ {k: v.decode() for k, v in build_files(case, False).items()} } "
-                        f"effective={obs!r} expected={want!r} ({layer}) :: {res.brief()}",
+                        f"effective={obs!r} (layer: {which_layer(obs)}) expected={want!r} (layer: {layer}) :: {res.brief()}",
                     )
         else:
             cls.append("nt:unknown-keys")
@@ -625,7 +656,7 @@ def check_accept(case):
     table, _ = _introspect()
     sub, opt = case["sub"], case["opt"]
     ok = sub in table and opt in table[sub]
-    f.expect(ok, f"accept/{sub or 'base'}/{opt}/no-longer-accepted", f"setup_parser() declares {sorted(table.get(sub, []))} for {sub!r}")
+    f.expect(ok, f"accept/{sub or 'base'}/{opt}/not-accepted-on-command-line", f"setup_parser() declares {sorted(table.get(sub, []))} for {sub!r}")
     return ["nt:frozen-pair"], f
 
 
